@@ -87,6 +87,13 @@ pub fn into_bytes_incircuit(
     use CircuitValue::*;
     match input {
         Native(x) => {
+            // As off-circuit: a native value has at most NUM_BITS / 8 (rounded up)
+            // bytes (the gadget panics on a larger request).
+            if n as u32 > F::NUM_BITS.div_ceil(8) {
+                return Err(Error::Other(format!(
+                    "cannot convert a Native value to Bytes({n})"
+                )));
+            }
             let bytes = std_lib.assigned_to_le_bytes(layouter, x, Some(n))?;
             Ok(bytes.to_vec().into())
         }
